@@ -95,6 +95,11 @@ class TreeGen:
             info = r.randrange(self.label_space)
         if weights is None:
             weights = [self.weight() for _ in range(n)]
+            if n >= 2 and r.random() < 0.2:
+                # weights written as probabilities rounded to a few digits: they sum to one only approximately
+                tot = sum(weights)
+                d = r.choice([7, 7, 8, 6, 3])
+                weights = [max(round(w / tot, d), 10.0 ** -d) for w in weights]
         return {"c": info, "o": [[f2b(w), self.node(depth + 1, prev)] for w in weights]}
 
     def player(self, pl, depth, prev):
@@ -203,7 +208,9 @@ def random_row(rng, n, style=None):
         for i in rng.sample(range(n), rng.randint(1, n - 1)):
             w[i] = 0.0
     if style == "tiny" and n > 1:
-        w[rng.randrange(n)] *= 10.0 ** -rng.randint(3, 12)
+        # down to far below machine epsilon (but positive): such an action is still in the support
+        # (not below 1e-30 per entry: products of reaches along a path of depth <= 8 must stay inside binary64)
+        w[rng.randrange(n)] *= 10.0 ** -rng.choice([3, 6, 9, 12, 17, 20, 30])
     s = sum(w)
     return [x / s for x in w]
 
